@@ -220,6 +220,10 @@ def emit(e, env):
             return "(C.sqrt %s)" % emit(args[0], env)
         if name == "fabs" and len(args) == 1:
             return "(C.abs %s)" % emit(args[0], env)
+        if name in ("cos", "sin", "asin", "acos") and len(args) == 1:
+            return "(T.%s %s)" % (name, emit(args[0], env))
+        if name == "atan2" and len(args) == 2:
+            return "(T.atan2 %s %s)" % (emit(args[0], env), emit(args[1], env))
         raise TranslateError("unsupported call %s/%d" % (name, len(args)))
     if k == "mem":
         b = e[1]
@@ -426,6 +430,85 @@ def rotation_def(src):
     return defs + ["\n".join(chain) + "\n"]
 
 
+def euler_defs(m4, v3):
+    """rotateX/Y/Z, rotate(int, T), rotateE(r, a0, a1, a2), eulerAngles(a0, a1, a2) and the `const char*` wrappers.
+    cos/sin/asin/acos/atan2/PI become the law-free `Trig` interface; the statement skeleton is matched literally."""
+    out = []
+    E = Env(scalars={"angle": "angle"})
+    for ax in "XYZ":
+        b = body_of(m4, r"static Matrix4_ rotate%s\(T angle\)\s*\{" % ax, "Matrix4_::rotate" + ax)
+        m = must(r"return Matrix4_<T>\((.*)\);", b, "Matrix4_::rotate" + ax)
+        ex = split_top(m.group(1))
+        if len(ex) != 16:
+            raise TranslateError("Matrix4_::rotate%s: %d constructor arguments" % (ax, len(ex)))
+        out.append("/-- `Matrix4_::rotate%s(T angle)` -/\ndef rotate%s (F : Fld K) (T : Trig K) (angle : K) : Nat → Nat → K :=\n  %s\n" % (ax, ax, rows_lean(ex, 4, E)))
+    b = body_of(m4, r"static Matrix4_ identity\(\)\s*\{", "Matrix4_::identity")
+    m = must(r"return Matrix4_<T>\((.*)\);", b, "Matrix4_::identity")
+    ex = split_top(m.group(1))
+    if len(ex) != 16:
+        raise TranslateError("Matrix4_::identity: %d constructor arguments" % len(ex))
+    out.append("/-- `Matrix4_::identity()` -/\ndef identity (F : Fld K) : Nat → Nat → K :=\n  %s\n" % rows_lean(ex, 4, Env()))
+    b = body_of(m4, r"static Matrix4_ rotate\(int axis, T angle\)\s*\{", "Matrix4_::rotate(int, T)")
+    must(r"switch \(axis\) \{ case 0: case 'X': return rotateX\(angle\); case 1: case 'Y': return rotateY\(angle\); "
+         r"case 2: case 'Z': return rotateZ\(angle\); \} return identity\(\);", b, "Matrix4_::rotate(int, T)")
+    out.append("/-- `Matrix4_::rotate(int axis, T angle)`: `0`/`'X'`, `1`/`'Y'`, `2`/`'Z'`, anything else the identity -/\n"
+               "def rotateAxis (F : Fld K) (T : Trig K) (axis : Nat) (angle : K) : Nat → Nat → K :=\n"
+               "  if axis = 0 ∨ axis = 88 then rotateX F T angle\n  else if axis = 1 ∨ axis = 89 then rotateY F T angle\n"
+               "  else if axis = 2 ∨ axis = 90 then rotateZ F T angle\n  else identity F\n")
+    b = body_of(m4, r"static Matrix4_ rotateE\(const Vec3_<T>& r, int a0, int a1, int a2\)\s*\{", "Matrix4_::rotateE(r, a0, a1, a2)")
+    must(r"return rotate\(a0, r\.x\) \* rotate\(a1, r\.y\) \* rotate\(a2, r\.z\);", b, "Matrix4_::rotateE(r, a0, a1, a2)")
+    out.append("/-- `Matrix4_::rotateE(r, a0, a1, a2)` = `rotate(a0, r.x) * rotate(a1, r.y) * rotate(a2, r.z)` -/\n"
+               "def rotateE (F : Fld K) (T : Trig K) (r : V3 K) (a0 a1 a2 : Nat) : Nat → Nat → K :=\n"
+               "  mul F (mul F (rotateAxis F T a0 r.x) (rotateAxis F T a1 r.y)) (rotateAxis F T a2 r.z)\n")
+    # eulerAngles(int, int, int)
+    b = body_of(m4, r"Vec3_<T> Matrix4_<T>::eulerAngles\(int a0, int a1, int a2\) const\s*\{", "Matrix4_::eulerAngles")
+    m = must(r"T r0, r1, r2; const T lim = sizeof\(T\) == sizeof\(float\) \? T\(1 - [0-9.e-]+\) : T\(1 - [0-9.e-]+\); "
+             r"if \(a0 != a2\) \{ T s = \(a1 - a0 \+ 3\) % 3 == 1 \? -1\.0f : 1\.0f; "
+             r"if \((.*?)\) \{ r1 = (.*?); r2 = (.*?); r0 = (.*?); \} else \{ r1 = (.*?); r2 = (.*?); r0 = (.*?); \} "
+             r"return Vec3_<T>\(r2, r1, r0\); \} "
+             r"else \{ int k = 3 - a0 - a1; T s = \(a1 - a0 \+ 3\) % 3 == 2 \? -1\.0f : 1\.0f; "
+             r"if \((.*?)\) \{ r1 = (.*?); r2 = (.*?); r0 = (.*?); \} else \{ r1 = (.*?) \? \(T\)PI : 0; r2 = (.*?); r0 = (.*?); \} \} "
+             r"return Vec3_<T>\(r2, r1, r0\);", b, "Matrix4_::eulerAngles")
+    g = m.groups()
+    A = Env(mats={"at": "a"}, scalars={"s": "s", "lim": "lim", "PI": "T.pi"}, idx=("a0", "a1", "a2", "k"))
+    ex = lambda x: emit(parse_expr(x), A)
+    cd = lambda x: emit_cond(parse_cond(x), A)
+    out.append(
+        "/-- `Matrix4_<T>::eulerAngles(int a0, int a1, int a2)` for axis indices in {0,1,2}; `lim` is the gimbal-lock threshold\n"
+        "(`T(1 - 5e-7)` for float, `T(1 - 1e-15)` for double in the source) -/\n"
+        "def eulerAngles (F : Fld K) (C : Cmp K) (T : Trig K) (lim : K) (a : Nat → Nat → K) (a0 a1 a2 : Nat) : V3 K :=\n"
+        "  if a0 ≠ a2 then\n"
+        "    let s := if (a1 + 3 - a0) %% 3 = 1 then F.neg (F.lit 1) else F.lit 1\n"
+        "    if %s then\n      let r1 := %s\n      let r2 := %s\n      let r0 := %s\n      V3.mk r2 r1 r0\n"
+        "    else\n      let r1 := %s\n      let r2 := %s\n      let r0 := %s\n      V3.mk r2 r1 r0\n"
+        "  else\n"
+        "    let k := 3 - a0 - a1\n"
+        "    let s := if (a1 + 3 - a0) %% 3 = 2 then F.neg (F.lit 1) else F.lit 1\n"
+        "    if %s then\n      let r1 := %s\n      let r2 := %s\n      let r0 := %s\n      V3.mk r2 r1 r0\n"
+        "    else\n      let r1 := if %s then T.pi else F.lit 0\n      let r2 := %s\n      let r0 := %s\n      V3.mk r2 r1 r0\n"
+        % (cd(g[0]), ex(g[1]), ex(g[2]), ex(g[3]), ex(g[4]), ex(g[5]), ex(g[6]),
+           cd(g[7]), ex(g[8]), ex(g[9]), ex(g[10]), cd(g[11]), ex(g[12]), ex(g[13])))
+    # const char* wrappers: "XYZ" = moving axes, "XYZ*" = fixed axes (reversed order, reversed components)
+    if not re.search(r"Vec3_<T> zyx\(\) const \{ return Vec3_<T>\(z, y, x\); \}", norm(v3)):
+        raise TranslateError("Vec3_::zyx changed")
+    b = body_of(m4, r"static Matrix4_ rotateE\(const Vec3_<T>& r, const char\* a\)\s*\{", "Matrix4_::rotateE(r, const char*)")
+    must(r"if \(strlen\(a\) < 3\) return Matrix4_::identity\(\); return \(a\[3\] == '\*'\) \? "
+         r"rotateE\(r\.zyx\(\), a\[2\] - 'X', a\[1\] - 'X', a\[0\] - 'X'\) : rotateE\(r, a\[0\] - 'X', a\[1\] - 'X', a\[2\] - 'X'\);",
+         b, "Matrix4_::rotateE(r, const char*)")
+    b = body_of(m4, r"Vec3_<T> eulerAngles\(const char\* a\) const\s*\{", "Matrix4_::eulerAngles(const char*)")
+    must(r"if \(strlen\(a\) < 3\) return Vec3_<T>\(0, 0, 0\); return \(a\[3\] == '\*'\) \? "
+         r"eulerAngles\(a\[2\] - 'X', a\[1\] - 'X', a\[0\] - 'X'\)\.zyx\(\) : eulerAngles\(a\[0\] - 'X', a\[1\] - 'X', a\[2\] - 'X'\);",
+         b, "Matrix4_::eulerAngles(const char*)")
+    out.append("/-- `Vec3_::zyx()` -/\ndef zyx (r : V3 K) : V3 K := V3.mk r.z r.y r.x\n")
+    out.append("/-- `rotateE(r, \"ABC\")` / `rotateE(r, \"ABC*\")` with `a0 a1 a2` the indices of the letters `A B C` -/\n"
+               "def rotateEs (F : Fld K) (T : Trig K) (r : V3 K) (a0 a1 a2 : Nat) (fixed : Bool) : Nat → Nat → K :=\n"
+               "  if fixed then rotateE F T (zyx r) a2 a1 a0 else rotateE F T r a0 a1 a2\n")
+    out.append("/-- `eulerAngles(\"ABC\")` / `eulerAngles(\"ABC*\")` -/\n"
+               "def eulerAngless (F : Fld K) (C : Cmp K) (T : Trig K) (lim : K) (a : Nat → Nat → K) (a0 a1 a2 : Nat) (fixed : Bool) : V3 K :=\n"
+               "  if fixed then zyx (eulerAngles F C T lim a a2 a1 a0) else eulerAngles F C T lim a a0 a1 a2\n")
+    return out
+
+
 def translate(repo):
     m4 = cparse.read(repo, "include/asl/Matrix4.h").replace("\r\n", "\n")
     m3 = cparse.read(repo, "include/asl/Matrix3.h").replace("\r\n", "\n")
@@ -449,6 +532,7 @@ def translate(repo):
     c = vec_method(m4, r"Vec3_<T> operator%\(const Vec3_<T>& p\) const\s*\{", "Matrix4_::operator%(Vec3)", r"Vec3_<T>", 3, A)
     out.append("/-- `Matrix4_::operator%%(const Vec3_<T>& p)` (3x3 block times vector) -/\ndef modVec3 (F : Fld K) (a : Nat → Nat → K) (p : V3 K) : V3 K :=\n  V3.mk %s\n" % "\n    ".join(c))
     out.extend(rotation_def(m4))
+    out.extend(euler_defs(m4, v3))
     files["Gen/Matrix4Gen.lean"] = (HEADER % ("include/asl/Matrix4.h", "Gen.M4")) + "\n".join(out) + "\nend Gen.M4\n"
 
     # ---------------- Matrix3
